@@ -80,6 +80,9 @@ pub fn run(tier: Tier, seed: u64) -> i32 {
             !(l.contains(&0) && l.contains(&7))
         })
         .collect();
+    // the small shared parts first: the enumeration below may use up the wall cap on a loaded machine
+    let mut shared = crate::props::c13::api_use_part(&deadline);
+    shared.merge(crate::props::c14::cloned_signal_list_part(&deadline));
     let st = par_range(&format!("signal lists (ordered selections of <= {max_sigs} of {} menu signals) x all headers of <= {max_cols} columns x 9 fault plans", menu.len()), lists.len() as u64, &deadline, |li, st| {
         let sigs: Vec<Sig> = lists[li as usize].iter().map(|&i| menu[i].clone()).collect();
         // column names valid for this list
@@ -299,7 +302,6 @@ pub fn run(tier: Tier, seed: u64) -> i32 {
         exhaustive_note: "all signal lists and headers within the stated bounds".into(),
         e1: false,
     };
-    st.merge(crate::props::c13::api_use_part(&deadline));
-    st.merge(crate::props::c14::cloned_signal_list_part(&deadline));
+    st.merge(shared);
     finish(meta, st, started)
 }
